@@ -53,9 +53,21 @@ func initTuple() {
 
 			// a negative bound counts from the end of the collection,
 			// an excluded bound is skipped after that
+			var boundErr value.Value
 			bound := func(v value.Value) int {
+				if !v.IsSmallInt() {
+					// a big Int is out of range for every collection
+					if boundErr.IsUndefined() {
+						boundErr = value.Ref(value.NewIndexOutOfRangeError(v.Inspect(), length))
+					}
+					return 0
+				}
 				i := v.AsInt()
 				if i < 0 {
+					if i+length < 0 && boundErr.IsUndefined() {
+						// the bound lies before the first element, it must not wrap around a second time
+						boundErr = value.Ref(value.NewIndexOutOfRangeError(v.Inspect(), length))
+					}
 					return i + length
 				}
 				return i
@@ -82,6 +94,10 @@ func initTuple() {
 				start = bound(r.Start) + 1
 			case *value.EndlessClosedRange:
 				start = bound(r.Start)
+			}
+
+			if boundErr.IsNotUndefined() {
+				return value.Undefined, boundErr
 			}
 
 			if start >= 0 && end < start {
